@@ -58,13 +58,13 @@ def B := asciiB "b:80"
 -- tests by evaluation: a deploy whose target never passes returns exactly at the deploy timeout;
 -- a deploy with a request that never finishes returns at health + drain timeout; after remove /
 -- failed deploy / successful redeploy the targets concerned are not probed any more
-example : ((runOps [.target A .fail, .deploy 1 s1 false [A] 2100000000 700000000, .advance 2099999999]).events.filter
+example : ((runOps [.target A .fail, .deploy 1 s1 s1 false [A] 2100000000 700000000, .advance 2099999999]).events.filter
     (·.startsWith "cmd")) = [] := by decide +kernel
-example : ((runOps [.target A .fail, .deploy 1 s1 false [A] 2100000000 700000000, .advance 2100000000]).events.filter
+example : ((runOps [.target A .fail, .deploy 1 s1 s1 false [A] 2100000000 700000000, .advance 2100000000]).events.filter
     (·.startsWith "cmd")) = ["cmd c1 res=unhealthy"] := by decide +kernel
-example : ((runOps [.target A .fail, .deploy 1 s1 false [A] 2100000000 700000000, .advance 2100000000,
+example : ((runOps [.target A .fail, .deploy 1 s1 s1 false [A] 2100000000 700000000, .advance 2100000000,
     .advance 5000000000]).events.filter (·.startsWith "probe")).length = 3 := by decide +kernel
-example : ((runOps [.deploy 1 s1 false [A] 2100000000 700000000, .deploy 2 s1 false [B] 2100000000 700000000,
+example : ((runOps [.deploy 1 s1 s1 false [A] 2100000000 700000000, .deploy 2 s1 s1 false [B] 2100000000 700000000,
     .remove 3 s1, .advance 5000000000]).events.filter (·.startsWith "probe")) = ["probe a:80", "probe b:80"] := by
   decide +kernel
 
